@@ -62,3 +62,78 @@ Definition run_spec (o : opname) (args : list Z) (s : vm) : res (unit * vm) :=
   | Some i => if valid_instr i && constrained i s then Ok (tt, step i s) else Raise (ModelError "unconstrained")
   | None => Raise (ModelError "no instruction")
   end.
+
+(* ---- the operation object that denotes a specified instruction (inverse of instr_of) ------ *)
+From Hera.Model Require Import OpRep.
+
+Definition cond_regbranch (c : cond) : opname :=
+  match c with
+  | cBR => O_BR | cBL => O_BL | cBGE => O_BGE | cBLE => O_BLE | cBG => O_BG | cBULE => O_BULE
+  | cBUG => O_BUG | cBZ => O_BZ | cBNZ => O_BNZ | cBC => O_BC | cBNC => O_BNC | cBS => O_BS
+  | cBNS => O_BNS | cBV => O_BV | cBNV => O_BNV
+  end.
+Definition cond_relbranch (c : cond) : opname :=
+  match c with
+  | cBR => O_BRR | cBL => O_BLR | cBGE => O_BGER | cBLE => O_BLER | cBG => O_BGR | cBULE => O_BULER
+  | cBUG => O_BUGR | cBZ => O_BZR | cBNZ => O_BNZR | cBC => O_BCR | cBNC => O_BNCR | cBS => O_BSR
+  | cBNS => O_BNSR | cBV => O_BVR | cBNV => O_BNVR
+  end.
+
+Definition R (z : Z) : token := tok_reg (PI z).
+Definition N (z : Z) : token := tok_int (PI z).
+
+Definition op_of_instr (i : instr) : op :=
+  match i with
+  | I_SETLO d v => mkop O_SETLO [R d; N v] | I_SETHI d v => mkop O_SETHI [R d; N v]
+  | I_AND d a b => mkop O_AND [R d; R a; R b] | I_OR d a b => mkop O_OR [R d; R a; R b]
+  | I_XOR d a b => mkop O_XOR [R d; R a; R b] | I_ADD d a b => mkop O_ADD [R d; R a; R b]
+  | I_SUB d a b => mkop O_SUB [R d; R a; R b] | I_MUL d a b => mkop O_MUL [R d; R a; R b]
+  | I_INC d v => mkop O_INC [R d; N v] | I_DEC d v => mkop O_DEC [R d; N v]
+  | I_LSL d b => mkop O_LSL [R d; R b] | I_LSR d b => mkop O_LSR [R d; R b]
+  | I_LSL8 d b => mkop O_LSL8 [R d; R b] | I_LSR8 d b => mkop O_LSR8 [R d; R b]
+  | I_ASL d b => mkop O_ASL [R d; R b] | I_ASR d b => mkop O_ASR [R d; R b]
+  | I_SAVEF d => mkop O_SAVEF [R d] | I_RSTRF d => mkop O_RSTRF [R d]
+  | I_FON v => mkop O_FON [N v] | I_FOFF v => mkop O_FOFF [N v]
+  | I_FSET5 v => mkop O_FSET5 [N v] | I_FSET4 v => mkop O_FSET4 [N v]
+  | I_LOAD d o b => mkop O_LOAD [R d; N o; R b] | I_STORE d o b => mkop O_STORE [R d; N o; R b]
+  | I_B c b => mkop (cond_regbranch c) [R b]
+  | I_BREL c o => mkop (cond_relbranch c) [N o]
+  | I_CALL a b => mkop O_CALL [R a; R b] | I_RETURN a b => mkop O_RETURN [R a; R b]
+  | I_SWI v => mkop O_SWI [N v] | I_RTI => mkop O_RTI []
+  end.
+
+Definition zs_of_args (l : list pv) : option (list Z) :=
+  (fix go l := match l with
+               | [] => Some []
+               | PI z :: t => match go t with Some r => Some (z :: r) | None => None end
+               | _ => None
+               end) l.
+
+Definition instr_of_op (o : op) : option instr :=
+  match zs_of_args (o_args o) with
+  | Some zs => instr_of (o_cls o) zs
+  | None => None
+  end.
+
+(* an injective key, for decidable comparison of instructions *)
+Definition cond_tag (c : cond) : Z :=
+  match c with
+  | cBR => 0 | cBL => 1 | cBGE => 2 | cBLE => 3 | cBG => 4 | cBULE => 5 | cBUG => 6 | cBZ => 7
+  | cBNZ => 8 | cBC => 9 | cBNC => 10 | cBS => 11 | cBNS => 12 | cBV => 13 | cBNV => 14
+  end.
+Definition instr_key (i : instr) : list Z :=
+  match i with
+  | I_SETLO d v => [1; d; v] | I_SETHI d v => [2; d; v]
+  | I_AND d a b => [3; d; a; b] | I_OR d a b => [4; d; a; b] | I_XOR d a b => [5; d; a; b]
+  | I_ADD d a b => [6; d; a; b] | I_SUB d a b => [7; d; a; b] | I_MUL d a b => [8; d; a; b]
+  | I_INC d v => [9; d; v] | I_DEC d v => [10; d; v]
+  | I_LSL d b => [11; d; b] | I_LSR d b => [12; d; b] | I_LSL8 d b => [13; d; b]
+  | I_LSR8 d b => [14; d; b] | I_ASL d b => [15; d; b] | I_ASR d b => [16; d; b]
+  | I_SAVEF d => [17; d] | I_RSTRF d => [18; d]
+  | I_FON v => [19; v] | I_FOFF v => [20; v] | I_FSET5 v => [21; v] | I_FSET4 v => [22; v]
+  | I_LOAD d o b => [23; d; o; b] | I_STORE d o b => [24; d; o; b]
+  | I_B c b => [25; cond_tag c; b] | I_BREL c o => [26; cond_tag c; o]
+  | I_CALL a b => [27; a; b] | I_RETURN a b => [28; a; b]
+  | I_SWI v => [29; v] | I_RTI => [30]
+  end.
+Definition key_eqb (a b : list Z) : bool := zlist_eqb a b.
